@@ -83,3 +83,25 @@ func verifTraceSelfCopy(c IndexChunk, segment SeedSegment) {
 	}
 	verifTrace("a.selfcopy", c.Start, c.Size, src)
 }
+
+// verifTracePlan records the plan AssembleFile validated: one "a.plan" event per entry (first
+// row, last row, 0 for an entry without source or 1 + the position of its seed in the seed list,
+// the null seed AssembleFile prepends being position 0), then "a.planned" with the number of
+// attempts and the number of entries.
+func verifTracePlan(attempt int, plan Plan, seeds []Seed) {
+	if VerifTraceEnd == nil {
+		return
+	}
+	for _, p := range plan {
+		var src uint64
+		if p.source != nil {
+			for k, s := range seeds {
+				if s == p.seed {
+					src = uint64(k) + 1
+				}
+			}
+		}
+		verifTrace("a.plan", uint64(p.indexSegment.first), uint64(p.indexSegment.last), src)
+	}
+	verifTrace("a.planned", uint64(attempt), uint64(len(plan)), 0)
+}
